@@ -14,7 +14,8 @@ def main(tier, seed):
     files = []
     n = 40 if not thorough else 300
     sweep = 12 if not thorough else 40
-    for i, prof in enumerate(["std", "host", "basic", "closures", "deep"]):
+    # ("hosttry": host functions that handle the failure of the function they called back and carry on)
+    for i, prof in enumerate(["std", "host", "basic", "closures", "deep", "hosttry"]):
         f = os.path.join(d, "%s.ndjson" % prof)
         drive_trace(["budget-drive", "--profile", prof, "--seed", seed * 100 + i, "--n", n, "--sweep", sweep], f, n, timeout=1200)
         files.append(f)
